@@ -3578,12 +3578,8 @@ sexp sexp_read_raw (sexp ctx, sexp in, sexp *shares) {
       break;
     case 'i': case 'I':
       res = sexp_read(ctx, in);
-      if (sexp_exact_integerp(res))
-        res = sexp_make_flonum(ctx, sexp_unbox_fixnum(res));
-#if SEXP_USE_RATIOS
-      else if (sexp_ratiop(res))
-        res = sexp_make_flonum(ctx, sexp_ratio_to_double(ctx, res));
-#endif
+      if (sexp_numberp(res))
+        res = sexp_exact_to_inexact(ctx, NULL, 1, res);
       break;
     case 'f': case 'F':
     case 't': case 'T':
